@@ -286,6 +286,10 @@ func c15Menu() []c15Cmd {
 		cCreateShardGroup("db0", "autogen", b+1, "B+1ns", config.TSSTORE),
 		cCreateShardGroup("db0", "autogen", b+int64(c15Week), "B+7d", config.TSSTORE),
 		cCreateShardGroup("db0", "autogen", c15MaxNano, "MaxNanoTime", config.TSSTORE),
+		// the Unix epoch and its neighbours: a group boundary that the wire format encodes as 0 (after
+		// UpdateRetentionPolicy(shardGroupDuration=1d|2h) a group starts or ends exactly there)
+		cCreateShardGroup("db0", "autogen", 0, "epoch", config.TSSTORE),
+		cCreateShardGroup("db0", "autogen", -1, "epoch-1ns", config.TSSTORE),
 		cCreateShardGroup("db0", "autogen", b, "B", config.COLUMNSTORE),
 		cCreateShardGroup("db0", "rp1", b, "B", config.TSSTORE),
 		cCreateShardGroup("db0", "rpX", b, "B", config.TSSTORE),
